@@ -260,6 +260,12 @@ def ExecuteRecorded(text, preds, pre_sql=()):
     out.update(cfg=cfg, stmts=stmts, problems=problems)
     out['rename'] = sum(1 for e in executions for p in preds
                         if e.main_predicate != p and p in e.table_to_export_map)
+    # largest number of requested predicates that are intermediates of ONE
+    # other requested predicate (their renames have to accumulate)
+    out['renamed_in_one'] = max(
+        [sum(1 for p in preds
+             if e.main_predicate != p and p in e.table_to_export_map)
+         for e in executions] + [0])
     preambles = {e.preamble for e in executions}
     engine_name = program.annotations.Engine()
     connection = m['sqlite3_logica'].SqliteConnect()
@@ -322,6 +328,7 @@ def RunSubset(task):
         r['problems'].append('no single result for %s' % p)
   meta.update(stmts=['%s:%s' % s['key'] for s in r['stmts']],
               problems=r['problems'], rename=r.get('rename', 0),
+              renamed_in_one=r.get('renamed_in_one', 0),
               calls=r['calls'], wall=round(time.time() - t0, 3),
               results=r['results'] if len(sub) == 1 and r['end'] == 'ok'
               else {})
@@ -460,8 +467,13 @@ def RunStubCase(case):
 # ----------------------------------------------------------------------------
 # generated Logica programs (SQLite)
 
-def GenProgram(rng, ident, origin='compiled'):
+def GenProgram(rng, ident, origin='compiled', multi=False, orders=3):
   """A program with @Ground intermediates and deep / iterative recursion.
+
+  multi=True forces the shape "a requested predicate reads >= 2 @Ground-ed
+  intermediates that are requested as well" (several '⤓' renames have to
+  accumulate in ExecuteLogicaProgram); requests of >= 3 predicates are issued
+  in `orders` different orders.
 
   Returns {'id', 'text', 'finals', 'subsets', 'pre_sql', 'origin', 'meta'}."""
   lines = ['@Engine("sqlite");']
@@ -536,14 +548,14 @@ def GenProgram(rng, ident, origin='compiled'):
 
   # grounded intermediates, each reading 1-2 earlier things
   inter = []
-  for k in range(rng.randint(1, 3)):
+  for k in range(rng.randint(2, 3) if multi else rng.randint(1, 3)):
     name = 'G%d' % (k + 1)
     pool = sorted(sources)
     body = [Atom(rng.choice(pool), 'x')]
     if rng.random() < 0.5:
       body.append(Atom(rng.choice(pool), 'x'))
     lines.append('%s(x) distinct :- %s;' % (name, ', '.join(body)))
-    if rng.random() < 0.8:
+    if rng.random() < 0.8 or (multi and k < 2):
       lines.append('@Ground(%s);' % name)
       meta['ground'].append(name)
     sources[name] = 1
@@ -554,13 +566,18 @@ def GenProgram(rng, ident, origin='compiled'):
     name = 'Q%d' % (k + 1)
     pool = sorted(sources)
     body = [Atom(rng.choice(pool), 'x'), Atom(rng.choice(inter), 'x')]
+    if multi and k == 0:
+      body = [Atom('G1', 'x'), Atom('G2', 'x')] + body[:1]
     if rng.random() < 0.5:
       body.append('x > %d' % rng.randint(0, 2))
     lines.append('%s(x, c) distinct :- %s, c = %d;' % (name, ', '.join(body),
                                                       k + 10))
     finals.append(name)
   # sometimes a requested predicate is itself an intermediate of another one
-  if rng.random() < 0.6:
+  if multi:
+    finals = ['Q1', 'G1', 'G2'] + (finals[1:2] if rng.random() < 0.4 else [])
+    meta['multi_rename'] = True
+  elif rng.random() < 0.6:
     g = rng.choice([n for n in inter])
     finals[-1:] = [g]
     meta['final_is_intermediate'] = g
@@ -572,6 +589,10 @@ def GenProgram(rng, ident, origin='compiled'):
              for c in itertools.combinations(finals, k)]
   # the order of a multi-predicate request is also varied
   subsets = [s if rng.random() < 0.5 else list(reversed(s)) for s in subsets]
+  for sub in [x for x in subsets if len(x) >= 3]:
+    perms = [list(q) for q in itertools.permutations(sub) if list(q) != sub]
+    rng.shuffle(perms)
+    subsets += perms[:max(0, orders - 1)]
   return {'id': ident, 'text': '\n'.join(lines) + '\n', 'finals': finals,
           'subsets': subsets, 'pre_sql': pre_sql, 'origin': origin,
           'meta': meta}
@@ -600,6 +621,30 @@ B(x) :- A(x), Z(x);
 @Iteration(I, predicates: [A, B], repetitions: 2);
 Q(x) :- B(x);
 '''
+
+
+# The shape missed before: three predicates requested at once, two of them
+# @Ground-ed intermediates of the third (every subset, every order).
+THREE_REQUESTS_PROGRAM = '''@Engine("sqlite");
+Base(1); Base(2); Base(3); Base(4);
+@Ground(Grand);
+Grand(x) distinct :- Base(x), x > 1;
+@Ground(Cnt);
+Cnt(x) distinct :- Base(x), x < 4;
+Out(x, y) :- Grand(x), Cnt(y), y == x + 1;
+'''
+
+
+def ThreeRequestsCase():
+  finals = ['Out', 'Grand', 'Cnt']
+  subsets = [[p] for p in finals]
+  subsets += [list(q) for q in itertools.permutations(finals, 2)]
+  subsets += [list(q) for q in itertools.permutations(finals, 3)]
+  return {'id': 'x-three-requests', 'text': THREE_REQUESTS_PROGRAM,
+          'finals': finals, 'subsets': subsets, 'pre_sql': [],
+          'origin': 'compiled', 'meta': {'recursive': [], 'ground':
+                                         ['Grand', 'Cnt'], 'data': False,
+                                         'multi_rename': True}}
 
 
 def StubPrograms():
